@@ -775,7 +775,7 @@ Proof.
     f_equal. f_equal; [lia|]. f_equal; [lia|]. f_equal. lia.
 Qed.
 
-Theorem z85_round : forall d, bytes_lt d -> z85_decode (z85_encode d) = Some d.
+Theorem z85_crate_round : forall d, bytes_lt d -> z85_crate_decode (z85_encode d) = Some d.
 Proof.
   intros d Hd.
   destruct (split_groups 4 ltac:(lia) d) as (gs & t & -> & HF & Ht).
@@ -789,7 +789,7 @@ Proof.
   destruct (Nat.eq_dec (length t) 0) as [E0|E0].
   - (* no tail *)
     destruct t; [|discriminate]. rewrite z85_enc_nil, !app_nil_r.
-    unfold z85_decode. cbv zeta. rewrite HlenX.
+    unfold z85_crate_decode. cbv zeta. rewrite HlenX.
     destruct (Nat.eq_dec (length gs) 0) as [G0|G0].
     { assert (Egs : gs = []) by (destruct gs; [reflexivity|discriminate]).
       subst X. rewrite Egs. reflexivity. }
@@ -812,7 +812,7 @@ Proof.
     2:{ rewrite app_length, (length_concat_groups 4) by assumption. lia. }
     destruct (z85_tail_kernel t ltac:(lia) Hbt) as (Kd & Kl & Kh).
     set (T := z85_tail_text t) in *.
-    unfold z85_decode. cbv zeta. rewrite app_length, HlenX, Kl.
+    unfold z85_crate_decode. cbv zeta. rewrite app_length, HlenX, Kl.
     replace (5 * length gs + 5 =? 0)%nat with false by lia.
     replace ((5 * length gs + 5) mod 5 =? 0)%nat with true by lia. cbn [negb].
     replace (5 * length gs + 5 - 5)%nat with (length X + 0)%nat by lia.
@@ -848,11 +848,11 @@ Proof.
   - left. assumption.
 Qed.
 
-Theorem z85_invalid : forall data c,
-  In c data -> ~ In c z85_letters -> z85_decode data = None.
+Theorem z85_crate_invalid : forall data c,
+  In c data -> ~ In c z85_letters -> z85_crate_decode data = None.
 Proof.
-  intros data c Hin Hna. destruct (z85_decode data) as [out|] eqn:E; [exfalso|reflexivity].
-  apply Hna. clear Hna. unfold z85_decode in E. cbv zeta in E.
+  intros data c Hin Hna. destruct (z85_crate_decode data) as [out|] eqn:E; [exfalso|reflexivity].
+  apply Hna. clear Hna. unfold z85_crate_decode in E. cbv zeta in E.
   destruct (length data =? 0)%nat eqn:E0.
   { apply Nat.eqb_eq in E0. destruct data; [contradiction|discriminate]. }
   destruct (negb (length data mod 5 =? 0)%nat); [discriminate|].
@@ -904,6 +904,71 @@ Proof.
   f_equal; [lia|]. f_equal; [lia|]. f_equal; [lia|]. f_equal; [lia|].
   f_equal; [lia|]. f_equal; [lia|]. f_equal; [lia|]. f_equal. lia.
 Qed.
+
+(* ---- the guard of zero85> (repair of D39) ---- *)
+Lemma ends_hash5_app5 X a b c e f :
+  ends_hash5 (X ++ [a; b; c; e; f]) = true -> a = 35 /\ b = 35 /\ c = 35 /\ e = 35 /\ f = 35.
+Proof.
+  unfold ends_hash5. rewrite rev_app_distr. cbn [rev app].
+  intros H. repeat (apply andb_prop in H; destruct H as [H ?]).
+  repeat match goal with Hx : (_ =? _) = true |- _ => apply N.eqb_eq in Hx end.
+  subst. repeat split.
+Qed.
+
+Lemma z85_encode_not_hash5 d : bytes_lt d -> ends_hash5 (z85_encode d) = false.
+Proof.
+  intros Hd.
+  destruct (split_groups 4 ltac:(lia) d) as (gs & t & -> & HF & Ht).
+  apply Forall_app in Hd. destruct Hd as [Hgs Hbt]. apply Forall_concat in Hgs.
+  unfold z85_encode.
+  rewrite z85_enc_groups by (assumption || (rewrite app_length, (length_concat_groups 4) by assumption; lia)).
+  destruct (ends_hash5 _) eqn:E; [exfalso|reflexivity].
+  destruct (Nat.eq_dec (length t) 0) as [E0|E0].
+  - destruct t; [|discriminate]. rewrite z85_enc_nil, app_nil_r in E.
+    destruct (Nat.eq_dec (length gs) 0) as [G0|G0].
+    { assert (Egs : gs = []) by (destruct gs; [reflexivity|discriminate]). rewrite Egs in E. discriminate. }
+    assert (Hne : gs <> []) by (intro C; rewrite C in G0; apply G0; reflexivity).
+    destruct (exists_last Hne) as (gs' & gl & Egl).
+    rewrite Egl, flat_map_app in E. cbn [flat_map] in E. rewrite app_nil_r in E.
+    unfold z85_genc at 2 in E. unfold z85_enc_num in E.
+    apply ends_hash5_app5 in E. destruct E as (Ea & _).
+    assert (Hl : bytes_lt gl).
+    { rewrite Egl in Hgs. apply Forall_app in Hgs. destruct Hgs as [_ Hl]. inversion Hl; assumption. }
+    apply (z85_group_first (z85_gnum gl) (z85_gnum_lt gl Hl)). exact Ea.
+  - rewrite z85_enc_tail in E.
+    2:{ lia. }
+    2:{ rewrite app_length, (length_concat_groups 4) by assumption. lia. }
+    destruct (z85_tail_kernel t ltac:(lia) Hbt) as (Kd & Kl & Kh).
+    destruct (z85_tail_text t) as [|a [|b [|c [|e [|f [|? ?]]]]]]; try discriminate.
+    apply ends_hash5_app5 in E. destruct E as (-> & -> & -> & -> & ->).
+    vm_compute in Kd. injection Kd as <-. cbn [length] in E0. lia.
+Qed.
+
+Theorem z85_round : forall d, bytes_lt d -> z85_decode (z85_encode d) = Some d.
+Proof.
+  intros d Hd. unfold z85_decode. rewrite z85_encode_not_hash5 by assumption. apply z85_crate_round. assumption.
+Qed.
+
+Theorem z85_invalid : forall data c,
+  In c data -> ~ In c z85_letters -> z85_decode data = None.
+Proof.
+  intros data c Hin Hna. unfold z85_decode. destruct (ends_hash5 data); [reflexivity|].
+  apply (z85_crate_invalid data c); assumption.
+Qed.
+
+(* the guard covers exactly the texts on which the crate's `4 - diff` underflows: after it, the tail group
+   of a text the crate treats as having a tail starts with at most four padding marks *)
+Theorem z85_guard_excludes_underflow : forall X a b c e f,
+  ends_hash5 (X ++ [a; b; c; e; f]) = false -> (count_lead_hash [a; b; c; e; f] <= 4)%nat.
+Proof.
+  intros X a b c e f H. cbn [count_lead_hash].
+  destruct (N.eqb_spec a 35) as [->|]; [|lia]. destruct (N.eqb_spec b 35) as [->|]; [|lia].
+  destruct (N.eqb_spec c 35) as [->|]; [|lia]. destruct (N.eqb_spec e 35) as [->|]; [|lia].
+  destruct (N.eqb_spec f 35) as [->|]; [|lia].
+  exfalso. unfold ends_hash5 in H. rewrite rev_app_distr in H. cbn [rev app] in H. discriminate.
+Qed.
+Theorem z85_guard_is_needed : ends_hash5 [35; 35; 35; 35; 35]%N = true /\ count_lead_hash [35; 35; 35; 35; 35]%N = 5%nat.
+Proof. split; reflexivity. Qed.
 
 Theorem z85_group_digits b0 b1 b2 b3 :
   let n := be32 b0 b1 b2 b3 in
